@@ -75,4 +75,13 @@ def flakyErrorRun : Run := { scens := [{ steps := [⟨1, false, .raises⟩] }, {
 def Quiet (m : MSt) : Prop := m.ctl.stop = false ∧ m.ctl.limit = false ∧ m.outcomes = [] ∧ m.seenSuite = []
 
 
+/-- number of scenarios reported as failed -/
+def failedScenarios : List SEv → Nat
+  | [] => 0
+  | .scenFinished _ .failure :: r => failedScenarios r + 1
+  | _ :: r => failedScenarios r
+
+/-- no scenario of the script has a `teardown` whose metric aggregation raises -/
+def NoTeardownFault (runs : List Run) : Prop := ∀ r, r ∈ runs → ∀ sc, sc ∈ r.scens → sc.teardownFails = false
+
 end SV.Spec.SM
